@@ -97,6 +97,15 @@ def install(R):
                                patterns=[rp(i, c)]))
             out.rowpos = rp
             return out
+        if a.ndim == 2 and axis == 0:
+            # per column a permutation of the row positions
+            n, k = z(a.shape[0]), z(a.shape[1])
+            out = NdArr.fresh("argsort", a.shape, "int")
+            i, i2, j = (z3.Int(fresh_name(x)) for x in ("ai", "ak", "aj"))
+            col = z3.And(j >= 0, j < k)
+            E.assume(z3.ForAll([i, j], z3.Implies(z3.And(col, i >= 0, i < n), z3.And(out.get(i, j) >= 0, out.get(i, j) < n))))
+            E.assume(z3.ForAll([i, i2, j], z3.Implies(z3.And(col, i >= 0, i < n, i2 >= 0, i2 < n, i != i2), out.get(i, j) != out.get(i2, j))))
+            return out
         raise Unsupported("argsort(axis=%r)" % (axis,))
 
     @reg("numpy.random.rand")
@@ -149,3 +158,82 @@ def install(R):
             return NdArr.from_fn("take2", (m,), arr.kind, lambda r: fs.get(fa.get(r), fb.get(r)))
         return old_fancy(E, arr, idx, node)
     R.fancy_get = fancy_get
+
+
+def install_sklearn_utils(R):
+    """ASSUMED models of small scikit-learn / numpy helpers used by the k-means code"""
+    from .values import Obj
+
+    def _check_random_state(E, seed=None):
+        if isinstance(seed, Obj) and seed.tag == "RandomState":
+            return seed
+        o = R.fns["numpy.random.RandomState"](E, seed)
+        if seed is None:
+            o.fields["$rng"] = "Global"         # check_random_state(None) is numpy's global generator
+            for t in E.trace[-1:]:
+                if t.get("op") == "RandomState":
+                    t["rng"] = "Global"
+        return o
+    for nm in ("sklearn.utils.check_random_state", "sklearn.utils.validation.check_random_state"):
+        R.fns[nm] = _check_random_state
+    R.fns["sklearn.utils.validation._num_samples"] = lambda E, X: X.shape[0]
+
+    def _check_sample_weight(E, sample_weight, X, dtype=None, **kw):
+        """ASSUMED: the given weights (validated: one per row, else ValueError) or ones"""
+        if sample_weight is None:
+            return NdArr.from_fn("ones", (X.shape[0],), "real", lambda i: z3.RealVal(1))
+        if isinstance(sample_weight, NdArr) and sample_weight.ndim == 1:
+            E.safety("sample-weight-length", z(sample_weight.shape[0]) == z(X.shape[0]), None, "ValueError")
+            return sample_weight
+        raise Unsupported("_check_sample_weight(%r)" % (sample_weight,))
+    for nm in ("sklearn.cluster._kmeans._check_sample_weight", "sklearn.cluster._kmeans._check_normalize_sample_weight",
+               "sklearn.utils.validation._check_sample_weight"):
+        R.fns[nm] = _check_sample_weight
+
+    def _iinfo(E, dt):
+        o = Obj("iinfo", tag="iinfo")
+        name = getattr(dt, "name", str(dt)).split(".")[-1]
+        bits = {"int8": 8, "int16": 16, "int32": 32, "int64": 64}.get(name)
+        if bits is None:
+            raise Unsupported("iinfo(%r)" % (dt,))
+        o.fields["max"], o.fields["min"] = 2 ** (bits - 1) - 1, -(2 ** (bits - 1))
+        return o
+    R.fns["numpy.iinfo"] = _iinfo
+
+
+def install_isclose(R):
+    from fractions import Fraction
+    from .values import is_num_like
+
+    def _isclose(E, a, b, rtol=Fraction(1, 100000), atol=Fraction(1, 100000000), equal_nan=False):
+        """numpy.isclose on finite scalars: |a - b| <= atol + rtol * |b|   (A1: reals)"""
+        if not (is_num_like(a) and is_num_like(b)):
+            raise Unsupported("isclose(%r, %r)" % (a, b))
+        from .values import znum
+        x, y = znum(a), znum(b)
+        ab = lambda t: z3.If(t >= 0, t, -t)
+        rt = z3.RealVal(str(Fraction(rtol))) if not is_sym(rtol) else rtol
+        at = z3.RealVal(str(Fraction(atol))) if not is_sym(atol) else atol
+        if isinstance(b, (int, float, Fraction)):
+            bound = at + rt * z3.RealVal(str(abs(Fraction(b))))
+        else:
+            bound = at + rt * ab(y)
+        return ab(x - y) <= bound
+    R.fns["numpy.isclose"] = _isclose
+
+
+def install_set_of_array(R):
+    prev = getattr(R, "set_hook", None)
+
+    def set_hook(E, v):
+        r = prev(E, v) if prev is not None else None
+        if r is not None:
+            return r
+        if isinstance(v, NdArr) and v.ndim == 1 and not isinstance(v.shape[0], int):
+            from .dicts import SymCountSet
+            c = E.int("distinct")
+            n = z(v.shape[0])
+            E.assume(z3.And(c >= 0, c <= n, z3.Implies(n > 0, c >= 1)))
+            return SymCountSet(c, v)
+        return prev(E, v) if prev is not None else None
+    R.set_hook = set_hook
